@@ -4,6 +4,7 @@ from vlib.props.pgen import gen_model, sfx
 
 HEAD = '''
 from vlib.h.pipe import *
+from vlib.h.pipe import _looks_like_chr_name
 
 
 def naming(specs, groups, tf, fasta_like=False, cuts=None, ends=None, fr=0, prefix=None):
@@ -12,7 +13,21 @@ def naming(specs, groups, tf, fasta_like=False, cuts=None, ends=None, fr=0, pref
     prtxt = mk_pretext(groups, tf, fr)
     ba, outs = run_pipeline(inp, prtxt, prefix)
     LAST["outs"] = outs
-    return FIN(AND(names_ok(outs, ba, prefix or "SUPER_"), partition_ok(inp, outs)))
+    # every Pretext scaffold carrying a chromosome-name tag (and no routing tag) is written as <prefix><tag>, rank 2
+    named = True
+    pfx = prefix or "SUPER_"
+    for gname, pieces in groups:
+        gt = set()
+        for p in pieces:
+            gt |= set(p[4])
+        if gt & {"Haplotig", "Contaminant", "FalseDuplicate"}:
+            continue
+        for t in gt:
+            if t not in KNOWN_TAGS and _looks_like_chr_name(t):
+                want = t if t.startswith(pfx) else pfx + t
+                hit = [sc for k, a in outs.items() if a.curated for sc in a.scaffolds if sc.name == want and sc.rank == 2]
+                named = named and len(hit) == 1
+    return FIN(AND(names_ok(outs, ba, pfx), partition_ok(inp, outs), named))
 
 
 def naming_rest(specs, groups, tf, fasta_like=False, cuts=None, ends=None, fr=0):
@@ -65,6 +80,14 @@ def conditions(tier):
     q.append(("three_haplotigs_and_two_chromosomes", _m(n, s5, ((0,) * 5, [(0, 0, 0), (1, 1, 0), (2, 2, 0), (3, 3, 0), (4, 4, 0)]),
                                                         [("Haplotig",), P, ("Haplotig",), P, ("Haplotig",)], (1,) * 5, extra_pre=[f"d{i} == 0 and l{i}_0 >= tf + 2" for i in range(5)]), n, 900,
               "3 haplotigs interleaved with 2 painted chromosomes; sizes symbolic, ends shown exactly"))
+    n = "names_unpainted_tag"
+    q.append(("name_tag_on_unpainted_scaffold", _m(n, s5[:4], ((0,) * 4, [(0, 0, 0), (1, 1, 0), (2, 2, 0), (3, 3, 0)]),
+                                                    [P, ("X",), ("B1", "Painted"), ()], (1, 1, 1, 1), extra_pre=[f"d{i} == 0 and l{i}_0 >= tf + 2" for i in range(4)]), n, 600,
+              "a chromosome painted, a scaffold carrying only the name tag X (NOT painted), a painted B1, an unplaced scaffold: name-tagged scaffolds become <prefix><tag> and are listed in the CSV"))
+    n = "names_last_unlocs"
+    q.append(("last_map_scaffold_has_two_unlocs_nothing_left_over", _m(n, s5[:4], ((0,) * 4, [(0, 0, 0), (1, 1, 0), (1, 2, 0), (1, 3, 0)]),
+                                                                        [P, P, U, U], (1, 1, 1, 1), extra_pre=[f"d{i} == 0 and l{i}_0 >= tf + 2" for i in range(4)]), n, 600,
+              "two painted Pretext scaffolds, the LAST one with two unlocs, every input scaffold placed (nothing is re-added afterwards): unlocs numbered longest first"))
     n = "names_rounding"
     q.append(("two_chromosomes_unloc_haplotig_with_rounding", _m(n, s5[:4], ((0,) * 4, [(0, 0, 0), (0, 1, 0), (1, 2, 0), (2, 3, 0)]),
                                                                   [P, U, P, ("Haplotig",)], (1, -1, 1, 1)), n, 900,
